@@ -21,7 +21,8 @@ Inductive kexpr :=
 | XCol (c : nat)
 | XInt (z : Z)                                         (* non-negative integer literal *)
 | XBin (op : arith) (a b : kexpr)                      (* (a + b), (a - b), (a * b) *)
-| XNeg (a : kexpr).                                    (* (- a) *)
+| XNeg (a : kexpr)                                     (* (- a) *)
+| XAbs (a : kexpr).                                    (* ABS(a): a function call in a key *)
 
 Inductive key :=
 | KCol (c : nat) (qual : bool)                         (* `c` or `t.c` *)
@@ -47,12 +48,36 @@ Definition passes_where (w : option Z) (r : row) : bool :=
   | Some k => match r with VInt i :: _ => k <? i | _ => false end
   end.
 
+(* reference value of a key expression: integer arithmetic as in Model/SqlSpec.v (NULL in, NULL
+   out; overflow, text and float operands: undefined), ABS on integers *)
+Fixpoint spec_kexpr (e : kexpr) (r : row) : option value :=
+  match e with
+  | XCol c => nth_error r c
+  | XInt z => Some (VInt z)
+  | XBin op a b =>
+      match spec_kexpr a r, spec_kexpr b r with
+      | Some x, Some y => arith_values op x y
+      | _, _ => None
+      end
+  | XNeg a => match spec_kexpr a r with Some x => arith_values ASub (VInt 0) x | None => None end
+  | XAbs a =>
+      match spec_kexpr a r with
+      | Some (VInt x) => if i64_ok (Z.abs x) then Some (VInt (Z.abs x)) else None
+      | Some VNull => Some VNull
+      | _ => None
+      end
+  end.
+(* without ABS this is the evaluator of the shared SQL semantics on the corresponding expression
+   (Proof/SortKeys.v spec_kexpr_is_eval); ABS has no counterpart there *)
+Fixpoint kexpr_has_fn (e : kexpr) : bool :=
+  match e with XAbs _ => true | XBin _ a b => kexpr_has_fn a || kexpr_has_fn b | XNeg a => kexpr_has_fn a | _ => false end.
 Fixpoint to_expr (e : kexpr) : expr :=
   match e with
   | XCol c => ECol c
   | XInt z => ELit (VInt z)
   | XBin op a b => EArith op (to_expr a) (to_expr b)
   | XNeg a => EArith ASub (ELit (VInt 0)) (to_expr a)
+  | XAbs a => to_expr a
   end.
 
 (* the output column list, as table columns *)
@@ -60,7 +85,7 @@ Definition out_cols (ncols : nat) (s : select) : list nat :=
   match s with SelStar => seq 0 ncols | SelList items => map item_col items end.
 
 (* what a key denotes; None = not a valid query (no demand) *)
-Inductive kden := DCol (c : nat) | DExpr (e : expr).
+Inductive kden := DCol (c : nat) | DExpr (e : kexpr).
 Definition key_den (ncols : nat) (s : select) (k : key) : option kden :=
   match k with
   | KCol c _ => if (c <? ncols)%nat then Some (DCol c) else None
@@ -73,10 +98,10 @@ Definition key_den (ncols : nat) (s : select) (k : key) : option kden :=
       if (1 <=? n) && (n <=? Z.of_nat (length (out_cols ncols s)))
       then option_map DCol (nth_error (out_cols ncols s) (Z.to_nat (n - 1))) else None
   | KExpr (XCol c) => if (c <? ncols)%nat then Some (DCol c) else None
-  | KExpr e => Some (DExpr (to_expr e))
+  | KExpr e => Some (DExpr e)
   end.
 Definition den_value (d : kden) (r : row) : option value :=
-  match d with DCol c => nth_error r c | DExpr e => eval e r end.
+  match d with DCol c => nth_error r c | DExpr e => spec_kexpr e r end.
 
 Fixpoint all_some {X} (l : list (option X)) : option (list X) :=
   match l with
